@@ -153,6 +153,38 @@ def show(v, depth=0):
     return str(v)
 
 
+def cond_truth(conds, v):
+    """truth value of `v` (pointer / integer / bool used as a condition) that the path conditions
+    establish syntactically: handles v, bool(v), !v, v != 0, v == 0, 0 != v, 0 == v and negations"""
+    if isinstance(v, tuple) and v and v[0] == 'ne0':
+        v = v[1]
+    for item in conds:
+        c, o = item[0], item[1]
+        neg = False
+        while isinstance(c, tuple) and c and c[0] == 'not':
+            c = c[1]
+            neg = not neg
+        if isinstance(c, tuple) and c and c[0] == 'ne0':
+            c = c[1]
+        if c == v:
+            return o != neg
+        if isinstance(c, tuple) and c and c[0] == 'op' and c[1] in ('==', '!='):
+            a, b = c[2], c[3]
+            if isinstance(a, tuple) and a and a[0] == 'ne0':
+                a = a[1]
+            if isinstance(b, tuple) and b and b[0] == 'ne0':
+                b = b[1]
+            other = None
+            if a == v and is_const(b) and b[1] == 0:
+                other = True
+            elif b == v and is_const(a) and a[1] == 0:
+                other = True
+            if other:
+                r = o if c[1] == '!=' else (not o)
+                return r != neg
+    return None
+
+
 def symbols(v, out=None):
     if out is None:
         out = set()
@@ -552,14 +584,15 @@ class Sim:
     def ev_decl(self, n):
         for v in n['vars']:
             p = ('var', v['did'], v['name'])
-            self.event({'kind': 'decl', 'name': v['name'], 'storage': v['storage'], 'type': v['type'],
-                        'line': n.get('line'), 'has_init': 'init' in v, 'init_node': v.get('init')})
+            dev = self.event({'kind': 'decl', 'name': v['name'], 'storage': v['storage'], 'type': v['type'], 'did': v['did'],
+                              'line': n.get('line'), 'has_init': 'init' in v, 'init_node': v.get('init')})
             if 'init' in v:
                 x = self.ev(v['init'])
                 if v.get('ref'):
                     val = self.addr_of(self.lv_path(x))
                 else:
                     val = self.rv(x)
+                dev['value'] = val
                 self.note_word(p, val)
                 self.store[p] = val
                 self.writes.append(p)
@@ -577,7 +610,7 @@ class Sim:
         if n.get('copy_or_move') and len(args) == 1:
             a = args[0]
             src = self.rv(a)
-            if isinstance(src, tuple) and src and src[0] == 'obj' and n.get('elidable'):
+            if isinstance(src, tuple) and src and src[0] == 'obj' and (n.get('elidable') or (src[1] == n['record'] and not n.get('in_root'))):
                 return src
             self.event({'kind': 'construct', 'record': n['record'], 'ctor': n['ctor'], 'args': (a,),
                         'copy_or_move': True, 'move': n.get('move'), 'line': n.get('line'), 'in_root': n.get('in_root')})
@@ -625,6 +658,22 @@ class Sim:
             if isinstance(lam, tuple) and lam[0] == 'lambda':
                 rest = [self.rv(self.ev(a)) for a in args_nodes[1:]]
                 return self.inline_spin(lam[1], rest, n)
+        if fn is not None and self.eng.inline_helper(fn) and self.depth < 4:
+            vals = [self.ev(a) for a in args_nodes]
+            for prm, a in zip(fn['params'], vals):
+                pp = ('var', prm['did'], prm['name'])
+                if prm.get('isref'):
+                    self.store[pp] = self.addr_of(self.lv_path(a))
+                else:
+                    self.store[pp] = self.rv(a)
+            self.event({'kind': 'inline_begin', 'callee': callee, 'line': n.get('line')})
+            self.depth += 1
+            saved_this = self.this_val
+            ret = self.run_body(fn)
+            self.this_val = saved_this
+            self.depth -= 1
+            self.event({'kind': 'inline_end', 'callee': callee, 'line': n.get('line')})
+            return ret
         args = tuple(self.rv(self.ev(a)) for a in args_nodes)
         pure = name.startswith('std::') or name in ('pow', 'log', 'exp', 'sqrt') or n.get('builtin')
         if pure and name not in ('std::sort', 'std::unique', 'std::this_thread::sleep_for'):
@@ -955,6 +1004,16 @@ class Engine:
         self._spin = {}
         self._paths = {}
         self._lh = {}
+        self.no_inline = set()
+
+    def inline_helper(self, fn):
+        """free (non-member) functions defined in the repository that are not spin functions are helpers:
+        their bodies are analysed in the caller's context (parameters bound to the argument values)"""
+        if fn.get('kind') != 'function' or fn.get('cfg_error') or not fn.get('blocks'):
+            return False
+        if self.is_spin_function(fn):
+            return False
+        return fn['key'] not in self.no_inline
 
     def block_map(self, fn):
         k = fn['key']
